@@ -218,6 +218,10 @@ class GaussSystem:
             if (R == 1 or Rp == 1) and R * Rp <= self.rcap:
                 for op in ("joint", "margT", "condT"):
                     out.append(("%s:%d" % (op, Rp), (lambda o, op=op, Rp=Rp: self._affine(o, op, Rp, Dx)), (lambda mm, op=op, Rp=Rp: self._model_affine(mm, op, Rp))))
+        # the same with a DIAGONAL-class prior (the result must not inherit the prior's shortcuts)
+        if self.level == "full":
+            for op in ("joint", "margT"):
+                out.append(("%s:1d" % op, (lambda o, op=op: self._affine(o, op, 1, Dx, diag=True)), (lambda mm, op=op: self._model_affine(mm, op, 1, diag=True))))
         if Dx == Dy:
             Ny = 2 if R == 1 else R
             y = al.points(Ny, Dy, salt=4)
@@ -229,13 +233,18 @@ class GaussSystem:
         out.append(("update_Sigma", lambda o: _update_Sigma(o, Snew), lambda mm: m_cond(mm["cls"], mm["M"], mm["b"], Snew)))
         return out
 
-    def _affine(self, o, op, Rp, Dx):
-        p, _, _ = self.operand_pdf(Dx, Rp, salt="aff%d" % Dx)
+    def operand_diag_pdf(self, D):
+        Sig = objs.spd_batch(D, 1, self.vi + 1, self.seed, ("graphPd", D), diag=True)
+        mu = objs.vec_batch(D, 1, self.vi + 1, self.seed, ("graphPd", D))
+        return objs.mk_pdf("GaussianDiagPDF", Sig, mu), mu, Sig
+
+    def _affine(self, o, op, Rp, Dx, diag=False):
+        p, _, _ = self.operand_pdf(Dx, Rp, salt="aff%d" % Dx) if not diag else self.operand_diag_pdf(Dx)
         return {"joint": o.affine_joint_transformation, "margT": o.affine_marginal_transformation, "condT": o.affine_conditional_transformation}[op](p)
 
-    def _model_affine(self, mm, op, Rp):
+    def _model_affine(self, mm, op, Rp, diag=False):
         R, Dy, Dx = mm["M"].shape
-        _, mu, Sig = self.operand_pdf(Dx, Rp, salt="aff%d" % Dx)
+        _, mu, Sig = self.operand_pdf(Dx, Rp, salt="aff%d" % Dx) if not diag else self.operand_diag_pdf(Dx)
         res = []
         for rc in range(R):
             for rx in range(Rp):
